@@ -133,45 +133,44 @@ Lemma BT2_intro : forall cur s1 s2,
 Proof.
   induction cur as [|d cur IH]; intros s1 s2 Hl H1 H2 H3.
   - destruct s1, s2; simpl in Hl; try lia. constructor.
-  - simpl in Hl.
+  - simpl in Hl. pose proof (ext_cons_eq d cur) as Xc.
     destruct (Nat.eq_dec (length s1) (S (length cur))) as [E1|E1];
       destruct (Nat.eq_dec (length s2) (S (length cur))) as [E2|E2]; try lia.
     + destruct s1 as [|e1 s1]; [discriminate|]. destruct s2 as [|e2 s2]; [discriminate|].
       simpl in E1, E2. injection E1 as E1. injection E2 as E2.
+      assert (X1 : ext_from_end (e1 :: s1) (length cur) = e1) by (rewrite <- E1; apply ext_cons_eq).
+      assert (X2 : ext_from_end (e2 :: s2) (length cur) = e2) by (rewrite <- E2; apply ext_cons_eq).
       pose proof (H1 (length cur)) as A1. pose proof (H2 (length cur)) as A2. pose proof (H3 (length cur)) as A3.
-      rewrite <- E1 in A1 at 2. rewrite <- E2 in A2 at 2. rewrite ext_cons_eq in A1, A2.
-      rewrite <- E1 in A3 at 3. rewrite <- E2 in A3 at 5. rewrite !ext_cons_eq in A3.
-      rewrite ext_cons_eq in A1, A2, A3.
+      rewrite X1, Xc in A1. rewrite X2, Xc in A2. rewrite X1, X2, Xc in A3. simpl in A1, A2, A3.
       apply B2_both; auto.
-      * apply A1. simpl. lia.
-      * apply A2. simpl. lia.
-      * destruct A3 as [[_ A]|[_ A]]; [simpl; lia|left; exact A|right; exact A].
+      * apply A1. lia.
+      * apply A2. lia.
+      * destruct A3 as [[_ A]|[_ A]]; [lia|left; exact A|right; exact A].
       * apply IH; [lia| | |].
         -- intros k Hk. specialize (H1 k). rewrite !ext_cons_lt in H1 by lia. apply H1. simpl. lia.
         -- intros k Hk. specialize (H2 k). rewrite !ext_cons_lt in H2 by lia. apply H2. simpl. lia.
         -- intros k Hk. specialize (H3 k). rewrite !ext_cons_lt in H3 by lia. simpl in H3.
            destruct H3 as [[? ?]|[? ?]]; [lia|left; split; [lia|assumption]|right; split; [lia|assumption]].
     + destruct s1 as [|e1 s1]; [discriminate|]. simpl in E1. injection E1 as E1.
-      pose proof (H3 (length cur)) as A3. rewrite <- E1 in A3 at 3. rewrite !ext_cons_eq in A3.
+      assert (X1 : ext_from_end (e1 :: s1) (length cur) = e1) by (rewrite <- E1; apply ext_cons_eq).
+      pose proof (H3 (length cur)) as A3. rewrite X1, Xc in A3. simpl in A3.
       assert (e1 = d).
-      { destruct A3 as [[_ A]|[A _]]; [simpl; lia|exact A|lia]. }
+      { destruct A3 as [[_ A]|[A _]]; [lia|exact A|lia]. }
       subst e1. apply B2_left; [exact E1|lia|]. apply IH; [lia| | |].
       * intros k Hk. specialize (H1 k). rewrite !ext_cons_lt in H1 by lia. apply H1. simpl. lia.
       * intros k Hk. specialize (H2 k Hk). rewrite ext_cons_lt in H2 by lia. exact H2.
-      * intros k Hk. specialize (H3 k). rewrite ext_cons_lt in H3 by lia. simpl in H3.
-        rewrite (ext_cons_lt d cur) in H3 by lia.
-        destruct H3 as [[? ?]|[? ?]]; [lia|left; split; [lia|]|right; split; assumption].
-        rewrite ext_cons_lt in H0 by lia. exact H0.
+      * intros k Hk. specialize (H3 k). rewrite !ext_cons_lt in H3 by lia. simpl in H3.
+        destruct H3 as [[? ?]|[? ?]]; [lia|left; split; [lia|assumption]|right; split; assumption].
     + destruct s2 as [|e2 s2]; [discriminate|]. simpl in E2. injection E2 as E2.
-      pose proof (H3 (length cur)) as A3. rewrite <- E2 in A3 at 5. rewrite !ext_cons_eq in A3.
+      assert (X2 : ext_from_end (e2 :: s2) (length cur) = e2) by (rewrite <- E2; apply ext_cons_eq).
+      pose proof (H3 (length cur)) as A3. rewrite X2, Xc in A3. simpl in A3.
       assert (e2 = d).
-      { destruct A3 as [[A _]|[_ A]]; [simpl; lia|lia|exact A]. }
+      { destruct A3 as [[A _]|[_ A]]; [lia|lia|exact A]. }
       subst e2. apply B2_right; [lia|exact E2|]. apply IH; [lia| | |].
       * intros k Hk. specialize (H1 k Hk). rewrite ext_cons_lt in H1 by lia. exact H1.
       * intros k Hk. specialize (H2 k). rewrite !ext_cons_lt in H2 by lia. apply H2. simpl. lia.
-      * intros k Hk. specialize (H3 k). rewrite (ext_cons_lt d cur) in H3 by lia. simpl in H3.
-        destruct H3 as [[? ?]|[? ?]]; [lia|left; split; assumption|right; split; [lia|]].
-        rewrite ext_cons_lt in H0 by lia. exact H0.
+      * intros k Hk. specialize (H3 k). rewrite !ext_cons_lt in H3 by lia. simpl in H3.
+        destruct H3 as [[? ?]|[? ?]]; [lia|left; split; assumption|right; split; [lia|assumption]].
 Qed.
 
 Lemma BT2_left_BT s1 s2 cur : BT2 s1 s2 cur -> BT s1 cur.
@@ -210,4 +209,298 @@ Proof.
   intros [L [A _]] Hin. apply BT_intro.
   - rewrite L. apply max_ndim_ge. exact Hin.
   - intros k _. destruct (A s k Hin); auto.
+Qed.
+
+Arguments bcast_idx : simpl never.
+Arguments bcast_params : simpl never.
+
+(* ------------------------------------------------------------------ merge_coords is the inverse of
+   (bcast_idx, the coordinates along the non-kept axes) *)
+
+Definition fmask (p : list (option bool)) : list bool := map (fun x => negb (is_true x)) p.
+
+Lemma falses_fmask p sh : falses p sh = select (fmask p) sh.
+Proof. reflexivity. Qed.
+
+Lemma merge_spec s cur : BT s cur -> forall c e,
+  in_range s c -> in_range (falses (bcast_params s cur) cur) e ->
+  in_range cur (merge_coords (bcast_params s cur) c e) /\
+  bcast_idx s (merge_coords (bcast_params s cur) c e) = c /\
+  select (fmask (bcast_params s cur)) (merge_coords (bcast_params s cur) c e) = e.
+Proof.
+  induction 1 as [|s d cur HB IH|e0 s d cur Hl He HB IH]; intros c e Hc Hr.
+  - destruct c; simpl in Hc; [|tauto]. destruct e; simpl in Hr; [|tauto]. simpl. auto.
+  - pose proof (BT_length _ _ HB) as Hlen. rewrite bcast_params_skip in * by exact Hlen.
+    simpl in Hr. destruct e as [|i e]; [tauto|]. destruct Hr as [Hi Hr].
+    specialize (IH c e Hc Hr). destruct IH as [I1 [I2 I3]]. simpl. repeat split; auto; try lia.
+    + rewrite bcast_idx_skip; [exact I2|]. rewrite (in_range_length _ _ I1). exact Hlen.
+    + f_equal. exact I3.
+  - rewrite bcast_params_cons in * by exact Hl. destruct c as [|x c]; [simpl in Hc; tauto|].
+    simpl in Hc. destruct Hc as [Hx Hc]. unfold fmask, falses in *.
+    destruct (Z.eqb_spec e0 d) as [Ed|Ed].
+    + simpl in Hr |- *. specialize (IH c e Hc Hr). destruct IH as [I1 [I2 I3]].
+      split; [split; [lia|exact I1]|]. split; [|exact I3].
+      rewrite bcast_idx_cons by (rewrite (in_range_length _ _ I1); exact Hl). rewrite I2.
+      destruct (Z.eqb_spec e0 1); [f_equal; lia|reflexivity].
+    + destruct e as [|i e]; [simpl in Hr; tauto|]. simpl in Hr |- *. destruct Hr as [Hi Hr].
+      specialize (IH c e Hc Hr). destruct IH as [I1 [I2 I3]].
+      split; [split; [lia|exact I1]|]. split; [|f_equal; exact I3].
+      rewrite bcast_idx_cons by (rewrite (in_range_length _ _ I1); exact Hl). rewrite I2.
+      assert (e0 = 1) by tauto. subst e0. simpl. f_equal. lia.
+Qed.
+
+Lemma merge_inv s cur : BT s cur -> forall q, in_range cur q ->
+  in_range s (bcast_idx s q) /\
+  in_range (falses (bcast_params s cur) cur) (select (fmask (bcast_params s cur)) q) /\
+  merge_coords (bcast_params s cur) (bcast_idx s q) (select (fmask (bcast_params s cur)) q) = q.
+Proof.
+  induction 1 as [|s d cur HB IH|e0 s d cur Hl He HB IH]; intros q Hq.
+  - destruct q; simpl in Hq; [|tauto]. simpl. auto.
+  - pose proof (BT_length _ _ HB) as Hlen. rewrite bcast_params_skip by exact Hlen.
+    destruct q as [|i q]; [simpl in Hq; tauto|]. simpl in Hq. destruct Hq as [Hi Hq].
+    rewrite bcast_idx_skip by (rewrite (in_range_length _ _ Hq); exact Hlen).
+    specialize (IH q Hq). destruct IH as [I1 [I2 I3]]. simpl. repeat split; auto; try lia. f_equal. exact I3.
+  - rewrite bcast_params_cons by exact Hl.
+    destruct q as [|i q]; [simpl in Hq; tauto|]. simpl in Hq. destruct Hq as [Hi Hq].
+    rewrite bcast_idx_cons by (rewrite (in_range_length _ _ Hq); exact Hl).
+    specialize (IH q Hq). destruct IH as [I1 [I2 I3]]. unfold fmask, falses in *.
+    destruct (Z.eqb_spec e0 d) as [Ed|Ed]; simpl.
+    + repeat split; auto.
+      * destruct (Z.eqb_spec e0 1); lia.
+      * destruct (Z.eqb_spec e0 1); lia.
+      * rewrite I3. f_equal. destruct (Z.eqb_spec e0 1); lia.
+    + assert (e0 = 1) by tauto. subst e0. simpl. repeat split; auto; try lia. f_equal. exact I3.
+Qed.
+
+Lemma bcast_in_range s cur q : BT s cur -> in_range cur q -> in_range s (bcast_idx s q).
+Proof. intros HB Hq. apply (merge_inv s cur HB q Hq). Qed.
+
+Lemma bcast_idx_id sh q : in_range sh q -> bcast_idx sh q = q.
+Proof.
+  revert q. induction sh as [|d sh IH]; intros [|i q] H; simpl in H; try tauto; try reflexivity.
+  destruct H as [Hi H]. rewrite bcast_idx_cons by (symmetry; apply in_range_length; exact H).
+  rewrite IH by exact H. destruct (Z.eqb_spec d 1); f_equal; lia.
+Qed.
+
+(* broadcasting twice = broadcasting once *)
+Lemma bcast_idx_trans s m cur : BT s m -> BT m cur -> forall q, in_range cur q ->
+  bcast_idx s (bcast_idx m q) = bcast_idx s q.
+Proof.
+  intros H1 H2. revert s H1. induction H2 as [|m d cur HB IH|e0 m d cur Hl He HB IH]; intros s H1 q Hq.
+  - destruct q; simpl in Hq; [|tauto]. reflexivity.
+  - destruct q as [|i q]; [simpl in Hq; tauto|]. simpl in Hq. destruct Hq as [Hi Hq].
+    pose proof (in_range_length _ _ Hq) as Lq. pose proof (BT_length _ _ HB). pose proof (BT_length _ _ H1).
+    rewrite bcast_idx_skip by lia. rewrite (bcast_idx_skip s) by lia. apply IH; assumption.
+  - destruct q as [|i q]; [simpl in Hq; tauto|]. simpl in Hq. destruct Hq as [Hi Hq].
+    pose proof (in_range_length _ _ Hq) as Lq. pose proof (BT_length _ _ HB).
+    rewrite bcast_idx_cons by lia.
+    assert (Lb : length (bcast_idx m q) = length m).
+    { apply in_range_length. eapply bcast_in_range; eauto. }
+    inversion H1 as [|s' d' cur' HB'|e1 s' d' cur' Hl' He' HB']; subst.
+    + rewrite bcast_idx_skip by (rewrite Lb; apply BT_length; assumption).
+      rewrite bcast_idx_skip by (pose proof (BT_length _ _ HB'); lia). apply IH; assumption.
+    + rewrite bcast_idx_cons by lia. rewrite bcast_idx_cons by lia. rewrite IH by assumption.
+      f_equal. destruct (Z.eqb_spec e1 1); [reflexivity|]. destruct (Z.eqb_spec e0 1); [|reflexivity].
+      exfalso. destruct He'; lia.
+Qed.
+
+Lemma BT_trans s m cur : BT s m -> BT m cur -> BT s cur.
+Proof.
+  intros H1 H2. revert s H1. induction H2 as [|m d cur HB IH|e0 m d cur Hl He HB IH]; intros s H1.
+  - exact H1.
+  - apply BT_skip. apply IH. exact H1.
+  - inversion H1 as [|s' d' cur' HB'|e1 s' d' cur' Hl' He' HB']; subst.
+    + apply BT_skip. apply IH. assumption.
+    + apply BT_cons; [lia| |apply IH; assumption]. destruct He' as [E1 | E1]; destruct He as [E2 | E2]; subst; auto.
+Qed.
+
+(* ------------------------------------------------------------------ _get_expanded_coords_data *)
+
+Lemma flat_map_const_length {A B} (g : A -> list B) (l : list A) n :
+  (forall a, In a l -> length (g a) = n) -> length (flat_map g l) = (length l * n)%nat.
+Proof.
+  induction l as [|a l IH]; simpl; intros H; [reflexivity|]. rewrite app_length, IH, (H a) by auto. reflexivity.
+Qed.
+
+Lemma all_indices_length sh : shape_ok sh -> length (all_indices sh) = Z.to_nat (size sh).
+Proof.
+  induction 1 as [|d sh Hd Hok IH]; simpl; [reflexivity|].
+  rewrite (flat_map_const_length _ _ (Z.to_nat (size sh))).
+  - unfold zrange. rewrite map_length, seq_length. rewrite Z2Nat.inj_mul; [reflexivity|lia|apply size_nonneg; exact Hok].
+  - intros a _. rewrite map_length. exact IH.
+Qed.
+
+Lemma in_range_app s1 s2 e :
+  in_range (s1 ++ s2) e <-> in_range s1 (firstn (length s1) e) /\ in_range s2 (skipn (length s1) e).
+Proof.
+  revert e. induction s1 as [|d s1 IH]; intros e; simpl.
+  - split; [intros H; split; [exact I|exact H]|tauto].
+  - destruct e as [|i e]; simpl; [tauto|]. rewrite IH. tauto.
+Qed.
+
+Lemma in_range_app_intro s1 s2 e1 e2 : in_range s1 e1 -> in_range s2 e2 -> in_range (s1 ++ s2) (e1 ++ e2).
+Proof.
+  intros H1 H2. apply in_range_app. pose proof (in_range_length _ _ H1) as L.
+  rewrite <- L, firstn_app, Nat.sub_diag, firstn_all, skipn_app, Nat.sub_diag, skipn_all. simpl.
+  rewrite app_nil_r. auto.
+Qed.
+
+Lemma select_app {A} (m1 m2 : list bool) (l1 l2 : list A) :
+  length m1 = length l1 -> select (m1 ++ m2) (l1 ++ l2) = select m1 l1 ++ select m2 l2.
+Proof.
+  revert l1. induction m1 as [|b m1 IH]; intros [|x l1] H; simpl in *; try discriminate; [reflexivity|].
+  rewrite IH by lia. destruct b; reflexivity.
+Qed.
+
+Lemma first_true_split p fd :
+  first_true p = Some fd ->
+  (fd < length p)%nat /\ is_true (nth fd p None) = true /\ forall k, (k < fd)%nat -> is_true (nth k p None) = false.
+Proof.
+  revert fd. induction p as [|x p IH]; intros fd H; simpl in H; [discriminate|].
+  destruct (is_true x) eqn:E.
+  - inversion H; subst. simpl. repeat split; [lia|exact E|intros; lia].
+  - destruct (first_true p) as [n|]; [|discriminate]. inversion H; subst. destruct (IH n eq_refl) as [H1 [H2 H3]].
+    simpl. repeat split; [lia|exact H2|]. intros [|k] Hk; [exact E|]. apply H3. lia.
+Qed.
+
+Lemma first_true_none p : first_true p = None -> forall x, In x p -> is_true x = false.
+Proof.
+  induction p as [|y p IH]; simpl; intros H x Hx; [tauto|]. destruct (is_true y) eqn:E; [discriminate|].
+  destruct (first_true p); [discriminate|]. destruct Hx as [->|Hx]; auto.
+Qed.
+
+Lemma falses_split p sh fd :
+  length p = length sh -> first_true p = Some fd ->
+  falses p sh = falses (firstn fd p) (firstn fd sh) ++ falses (skipn (S fd) p) (skipn (S fd) sh).
+Proof.
+  intros Hl Hf. destruct (first_true_split p fd Hf) as [H1 [H2 _]].
+  rewrite <- (firstn_skipn fd p) at 1. rewrite <- (firstn_skipn fd sh) at 1.
+  unfold falses. rewrite map_app, select_app by (rewrite map_length, !firstn_length; lia). f_equal.
+  assert (E : skipn fd p = nth fd p None :: skipn (S fd) p).
+  { clear -H1. revert fd H1. induction p as [|x p IH]; intros [|fd] H; simpl in *; try lia; [reflexivity|].
+    apply IH. lia. }
+  rewrite E. destruct (skipn fd sh) as [|d r] eqn:Es.
+  - exfalso. assert (length (skipn fd sh) = 0%nat) by (rewrite Es; reflexivity). rewrite skipn_length in H. lia.
+  - assert (r = skipn (S fd) sh).
+    { clear -Es. revert fd Es. induction sh as [|x sh IH]; intros [|fd] Es; simpl in *; try discriminate.
+      - inversion Es; reflexivity.
+      - apply IH. exact Es. }
+    subst r. simpl. rewrite H2. reflexivity.
+Qed.
+
+Lemma falses_all p sh : length p = length sh -> first_true p = None -> falses p sh = sh.
+Proof.
+  intros Hl Hf. pose proof (first_true_none p Hf) as Hn. clear Hf. unfold falses.
+  revert sh Hl. induction p as [|x p IH]; intros [|d sh] Hl; simpl in *; try discriminate; [reflexivity|].
+  rewrite (Hn x) by auto. simpl. f_equal. apply IH; [intros; apply Hn; auto|lia].
+Qed.
+
+(* without a kept axis the operand has a single position *)
+Lemma no_true_unique s cur : BT s cur -> first_true (bcast_params s cur) = None ->
+  forall c c', in_range s c -> in_range s c' -> c = c'.
+Proof.
+  induction 1 as [|s d cur HB IH|e0 s d cur Hl He HB IH]; intros Hf c c' Hc Hc'.
+  - destruct c, c'; simpl in *; tauto.
+  - rewrite bcast_params_skip in Hf by (apply BT_length; exact HB). simpl in Hf.
+    destruct (first_true (bcast_params s cur)); [discriminate|]. apply IH; auto.
+  - rewrite bcast_params_cons in Hf by exact Hl. simpl in Hf.
+    destruct (Z.eqb_spec e0 d) as [Ed|Ed]; [discriminate|].
+    destruct (first_true (bcast_params s cur)); [discriminate|].
+    destruct c as [|x c]; destruct c' as [|x' c']; simpl in Hc, Hc'; try tauto.
+    assert (e0 = 1) by tauto. subst e0. f_equal; [lia|]. apply IH; tauto.
+Qed.
+
+Lemma nested_flat_map_prod {A B C R} (g : A -> B -> C -> R) (l1 : list A) (l2 : list B) (l3 : list C) :
+  flat_map (fun a => flat_map (fun b => map (fun c => g a b c) l3) l2) l1 =
+  map (fun x => g (fst x) (fst (snd x)) (snd (snd x))) (list_prod l1 (list_prod l2 l3)).
+Proof.
+  induction l1 as [|a l1 IH]; simpl; [reflexivity|]. rewrite map_app, IH. f_equal.
+  rewrite map_map. simpl. clear IH. induction l2 as [|b l2 IH2]; simpl; [reflexivity|].
+  rewrite map_app, IH2, map_map. reflexivity.
+Qed.
+
+Lemma NoDup_fst_inj {A B} (l : list (A * B)) x y :
+  NoDup (map fst l) -> In x l -> In y l -> fst x = fst y -> x = y.
+Proof.
+  induction l as [|z l IH]; simpl; intros Hnd Hx Hy E; [tauto|]. inversion Hnd as [|? ? Hz Hl]; subst.
+  destruct Hx as [->|Hx]; destruct Hy as [->|Hy]; auto.
+  - exfalso. apply Hz. rewrite E. apply in_map. exact Hy.
+  - exfalso. apply Hz. rewrite <- E. apply in_map. exact Hx.
+Qed.
+
+Lemma app_inv_length {A} (a a' c c' : list A) : length a = length a' -> a ++ c = a' ++ c' -> a = a' /\ c = c'.
+Proof.
+  revert a'. induction a as [|x a IH]; intros [|x' a'] Hl E; simpl in *; try discriminate; [auto|].
+  inversion E; subst. destruct (IH a') as [-> ->]; auto.
+Qed.
+
+Definition expand_rows {D} (rows : list (idx * D)) (params : list (option bool)) (bsh : shape) : list (idx * D) :=
+  let '(c, d) := expand_coords_data (map fst rows) (map snd rows) params bsh in combine c d.
+
+Lemma combine_repeat_In {A B} (l : list A) (v : B) n x w :
+  length l = n -> (In (x, w) (combine l (repeat v n)) <-> In x l /\ w = v).
+Proof.
+  intros <-. induction l as [|a l IH]; simpl; [tauto|]. rewrite IH. split.
+  - intros [E|[H1 H2]]; [inversion E; auto|auto].
+  - intros [[->|H] ->]; auto.
+Qed.
+
+Theorem expand_rows_spec {D} s T (rows : list (idx * D)) :
+  BT s T -> shape_ok T -> Forall (fun r => in_range s (fst r)) rows -> NoDup (map fst rows) ->
+  NoDup (map fst (expand_rows rows (bcast_params s T) T)) /\
+  forall q v, In (q, v) (expand_rows rows (bcast_params s T) T) <-> in_range T q /\ In (bcast_idx s q, v) rows.
+Proof.
+  intros HB Hok Hr Hnd. pose proof (BT_length _ _ HB) as Hlen.
+  pose proof (bcast_params_length s T Hlen) as Hpl. set (p := bcast_params s T) in *.
+  unfold expand_rows, expand_coords_data. rewrite combine_fst_snd.
+  destruct (first_true p) as [fd|] eqn:Hf.
+  - set (pre := falses (firstn fd p) (firstn fd T)). set (post := falses (skipn (S fd) p) (skipn (S fd) T)).
+    assert (Hsplit : falses p T = pre ++ post) by (apply falses_split; assumption).
+    rewrite combine_fst_snd.
+    rewrite (nested_flat_map_prod (fun ipre cd ipost => (merge_coords p (fst cd) (ipre ++ ipost), snd cd))).
+    set (L := list_prod (all_indices pre) (list_prod rows (all_indices post))).
+    assert (HL : forall x, In x L <-> in_range pre (fst x) /\ In (fst (snd x)) rows /\ in_range post (snd (snd x))).
+    { intros [a [b c]]. unfold L. rewrite !in_prod_iff, !all_indices_In. simpl. tauto. }
+    split.
+    + rewrite map_map. simpl. apply NoDup_map_in.
+      * intros [a [b c]] [a' [b' c']] Hx Hy E. apply HL in Hx. apply HL in Hy. simpl in *.
+        destruct Hx as [Ha [Hb Hc]]. destruct Hy as [Ha' [Hb' Hc']].
+        rewrite Forall_forall in Hr.
+        assert (R1 : in_range (falses p T) (a ++ c)) by (rewrite Hsplit; apply in_range_app_intro; assumption).
+        assert (R2 : in_range (falses p T) (a' ++ c')) by (rewrite Hsplit; apply in_range_app_intro; assumption).
+        destruct (merge_spec s T HB (fst b) (a ++ c) (Hr b Hb) R1) as [_ [M1 M2]].
+        destruct (merge_spec s T HB (fst b') (a' ++ c') (Hr b' Hb') R2) as [_ [M1' M2']].
+        fold p in M1, M2, M1', M2'. rewrite E in M1, M2.
+        assert (b = b') by (apply (NoDup_fst_inj rows); auto; congruence). subst b'.
+        assert (Eac : a ++ c = a' ++ c') by congruence.
+        apply app_inv_length in Eac; [destruct Eac; subst; reflexivity|].
+        rewrite (in_range_length _ _ Ha), (in_range_length _ _ Ha'). reflexivity.
+      * unfold L. apply NoDup_list_prod; [apply all_indices_NoDup|].
+        apply NoDup_list_prod; [eapply NoDup_map_inv; exact Hnd|apply all_indices_NoDup].
+    + intros q v. rewrite in_map_iff. split.
+      * intros [[a [b c]] [E Hx]]. apply HL in Hx. simpl in *. destruct Hx as [Ha [Hb Hc]].
+        inversion E; subst q v. clear E. rewrite Forall_forall in Hr.
+        assert (R1 : in_range (falses p T) (a ++ c)) by (rewrite Hsplit; apply in_range_app_intro; assumption).
+        destruct (merge_spec s T HB (fst b) (a ++ c) (Hr b Hb) R1) as [M0 [M1 _]]. fold p in M0, M1.
+        split; [exact M0|]. rewrite M1. destruct b; exact Hb.
+      * intros [Hq Hin]. destruct (merge_inv s T HB q Hq) as [_ [I2 I3]]. fold p in I2, I3.
+        rewrite Hsplit in I2. apply in_range_app in I2. destruct I2 as [Ia Ic].
+        exists (firstn (length pre) (select (fmask p) q), ((bcast_idx s q, v), skipn (length pre) (select (fmask p) q))).
+        simpl. split.
+        -- rewrite firstn_skipn, I3. reflexivity.
+        -- apply HL. simpl. auto.
+  - assert (HF : falses p T = T) by (apply falses_all; assumption). rewrite HF.
+    assert (Huniq : forall c c', in_range s c -> in_range s c' -> c = c') by (apply (no_true_unique s T HB Hf)).
+    pose proof (all_indices_length T Hok) as HN.
+    destruct rows as [|[c0 v0] rows].
+    + simpl. rewrite combine_nil. split; [constructor|]. intros q v. simpl. tauto.
+    + destruct rows as [|[c1 v1] rows].
+      * simpl. rewrite app_nil_r. split.
+        -- rewrite combine_map_fst by (rewrite repeat_length; exact HN). apply all_indices_NoDup.
+        -- intros q v. rewrite combine_repeat_In by (symmetry; rewrite HN; reflexivity). rewrite all_indices_In. split.
+           ++ intros [Hq ->]. split; [exact Hq|]. left. f_equal. inversion Hr; subst. simpl in *.
+              apply Huniq; [assumption|]. eapply bcast_in_range; eauto.
+           ++ intros [Hq [E|[]]]. inversion E; auto.
+      * exfalso. inversion Hr as [|? ? R0 Hr']; subst. inversion Hr' as [|? ? R1 _]; subst. simpl in *.
+        inversion Hnd as [|? ? Hn _]; subst. apply Hn. left. apply Huniq; assumption.
 Qed.
